@@ -83,6 +83,11 @@ def cases(tier):
     for c, a in masks:
         for r in (['plain', 'json'] if tier == 'quick' else ['plain', 'batch', 'verbose', 'json']):
             out.append(('ssh1', c, a, r))
+    # SSH-1 public-key messages of every length modulo the block size (the padding is 1..8 bytes; key sizes decide the length)
+    for hbits in range(1024, 1024 + 64 + 1, 8):
+        for sbits in (768, 776):
+            for r in ('plain', 'json'):
+                out.append(('ssh1', 0x48, 0x2c, r, hbits, sbits))
     return out
 
 
@@ -117,8 +122,11 @@ def build(case):
 
 def run_case(case):
     if case[0] == 'ssh1':
-        _k, cm, am, r = case
-        srv = peer.Server(banner=b'SSH-1.5-OpenSSH_3.4', ssh1={'cmask': cm, 'amask': am})
+        _k, cm, am, r = case[:4]
+        cfg = {'cmask': cm, 'amask': am}
+        if len(case) > 4:
+            cfg.update(host_bits=case[4], server_bits=case[5])
+        srv = peer.Server(banner=b'SSH-1.5-OpenSSH_3.4', ssh1=cfg)
         return H.audit(srv, opts=RENDER[r] + ['-1', '--skip-rate-test']), None
     role, r, lists, c2s, comp, banner = build(case)
     faults = None
@@ -164,13 +172,13 @@ def name_kind(cat, n):
 
 def check(case, res, info):
     probs = []
-    r = case[-1]
+    r = case[3] if case[0] == 'ssh1' else case[-1]
     kind = case[0]
     if res.hang or res.exc or res.status not in (0, 2, 3):
         tail = [l for l in (res.stdout + res.stderr).strip().split('\n') if l.strip()]
         return [('no-report:%s:status-%s:%s' % (kind if kind != 'one' else 'lists', res.status, (tail[-1] if tail else '')[:60]), (res.stdout + res.stderr)[-400:])]
     if kind == 'ssh1':
-        _k, cm, am, _r = case
+        _k, cm, am, _r = case[:4]
         exp = {'key': ['ssh-rsa1'], 'enc': [c for i, c in enumerate(SSH1_CIPHERS) if cm & (1 << i)],
                'aut': [a for i, a in enumerate(SSH1_AUTHS) if a and am & (1 << i)]}
         cats = ('key', 'enc', 'aut')
@@ -290,9 +298,9 @@ def _jsonable(case):
 def validation_cases(cs, seed, n):
     out = []
     for case in H.pick(cs, seed, n):
-        r = case[-1]
+        r = case[3] if case[0] == 'ssh1' else case[-1]
         if case[0] == 'ssh1':
-            _k, cm, am, _r = case
+            _k, cm, am, _r = case[:4]
             out.append({'label': str(case), 'opts': RENDER[r] + ['-1'], 'make': (lambda cm=cm, am=am: peer.Server(banner=b'SSH-1.5-OpenSSH_3.4', ssh1={'cmask': cm, 'amask': am}))})
             continue
         role, r, lists, c2s, comp, banner = build(case)
